@@ -9,7 +9,8 @@ git -C /repo worktree add --detach "$WT" HEAD >/dev/null 2>&1 || { echo "worktre
 cleanup() { git -C /repo worktree remove --force "$WT" >/dev/null 2>&1; }
 trap cleanup EXIT
 cd "$WT"
-git apply "$SD/patch.diff" || { echo "RESULT patch does not apply"; exit 1; }
+git apply "$SD/patch.diff" 2>/dev/null || patch -p1 -s < "$SD/patch.diff" || { echo "RESULT patch does not apply"; exit 1; }
+mkdir -p "$DEST"
 go build ./... || { echo "RESULT does not build"; exit 1; }
 demo=$(ls "$SD"/demo*_test.go 2>/dev/null | head -1)
 cp "$demo" "$DEST/zz_seed_demo_test.go"
@@ -19,6 +20,7 @@ rm "$DEST/zz_seed_demo_test.go"
 if ! go test -vet=off -count=1 -timeout 25m ./... >/tmp/confirm-$$.log 2>&1; then echo "RESULT existing suite FAILS with the change"; grep -E "^(FAIL|--- FAIL)" /tmp/confirm-$$.log | head; rm -f /tmp/confirm-$$.log; exit 1; fi
 echo "suite passes with change"
 git checkout -- . 
+mkdir -p "$DEST"
 cp "$demo" "$DEST/zz_seed_demo_test.go"
 if ! go test -vet=off -count=1 -run "$RX" "./$DEST/" >/tmp/confirm-$$.log 2>&1; then echo "RESULT demo fails WITHOUT the change"; tail -5 /tmp/confirm-$$.log; rm -f /tmp/confirm-$$.log; exit 1; fi
 rm -f /tmp/confirm-$$.log
